@@ -60,13 +60,12 @@ Definition delim_flag (fl : lang) (pol : policy) (dlm : str) (fs : list str) (li
 Inductive werr :=
 | ErrHeaderLen               (* Inconsistent number of columns in output header and the current record *)
 | ErrMono                    (* Unable to use "Monocolumn" output format: some records have more than one field *)
-| ErrOther.                  (* monocolumn: no field at all (IndexError / write(undefined)); JS: a non-string scalar written raw *)
+| ErrOther.                  (* monocolumn: no field at all (IndexError / write(undefined)) *)
 
 Record wstate := { w_lines : list str; w_none : bool; w_delim : bool }.   (* lines in reverse order *)
 
-(* JS mono_join returns fields[0] as is: a top-level number reaches stream.write() unconverted *)
-Definition js_mono_raw_scalar (row : list cell) : bool :=
-  match row with CInt _ :: _ => true | _ => false end.
+(* (until /repo 'fix: rbql-js monocolumn output ...' (D23) the JS mono_join returned fields[0] as it was, and a top-level number
+   reached stream.write() unconverted: modelled then as ErrOther; now both ports write str / String of the single field) *)
 
 (* one call of write(fields) *)
 Definition write_row (fl : lang) (pol : policy) (dlm : str) (header_len : option nat) (st : wstate) (row : list cell)
@@ -80,8 +79,7 @@ Definition write_row (fl : lang) (pol : policy) (dlm : str) (header_len : option
     | Monocolumn =>
         match fs with
         | [] => (st1, Some ErrOther)
-        | [f] => if match fl with LJs => js_mono_raw_scalar row | LPy => false end then (st1, Some ErrOther)
-                 else ({| w_lines := f :: w_lines st1; w_none := w_none st1; w_delim := w_delim st1 |}, None)
+        | [f] => ({| w_lines := f :: w_lines st1; w_none := w_none st1; w_delim := w_delim st1 |}, None)
         | _ :: _ :: _ => (st1, Some ErrMono)
         end
     | _ =>
